@@ -418,6 +418,7 @@ type xtr struct {
 	methods        map[string]*xmethod    // spec.Methods: "LeanType.Method" -> abstract method of an opaque type
 	capVars        map[string]string      // spec.CapVars: slice variable -> the Int variable that holds its capacity
 	fnBody         *ast.BlockStmt         // the body being translated (for whole-function checks)
+	asserts        map[string]string      // spec.Asserts: Go type text of the assertion -> abstract function
 }
 
 // a method of an opaque (interface) type, kept abstract: the parameter <Type>_<Method> of the translated
